@@ -346,7 +346,7 @@ class CounterToken(Token, FileSystemEventHandler):
                         tokenfile.watch()
                         self.cache[path.name] = tokenfile
                         self.available -= tokenfile.count
-        except (FileNotFoundError, ValueError):
+        except (FileNotFoundError, IsADirectoryError, ValueError):
             # The token file is gone, or it has been created but not written
             # yet (on_modified will pick it up after the write): just ignore
             pass
@@ -403,7 +403,7 @@ class CounterToken(Token, FileSystemEventHandler):
                             tokenfile.watch()
                             self.cache[path.name] = tokenfile
                             self.available -= tokenfile.count
-                        except (FileNotFoundError, ValueError):
+                        except (FileNotFoundError, IsADirectoryError, ValueError):
                             # Well, the file did not exist anymore, or is
                             # not written yet...
                             pass
